@@ -67,6 +67,9 @@ type VC struct {
 	inlineStack []*ssa.Function
 	witness map[string]string // human name -> term (entry-state values to report in models)
 	declared map[string]bool
+	lockTerms []string
+	defCache map[string]string
+	factCache map[string]bool
 	eventNames map[string]bool
 	eventArgTypes map[string]types.Type
 	inSpec int
@@ -95,6 +98,14 @@ func (vc *VC) def(sortName, term, hint string) string {
 	if isAtom(term) {
 		return term
 	}
+	if vc.defCache == nil {
+		vc.defCache = map[string]string{}
+	}
+	key := sortName + "|" + term
+	if n, ok := vc.defCache[key]; ok {
+		return n
+	}
+	defer func() { vc.defCache[key] = fmt.Sprintf("%s_%d", sanitizeID(hint), vc.n) }()
 	vc.n++
 	name := fmt.Sprintf("%s_%d", sanitizeID(hint), vc.n)
 	vc.emit(fmt.Sprintf("(define-fun %s () %s %s)", name, sortName, term))
@@ -112,6 +123,13 @@ func (vc *VC) fact(pc, term string) {
 	if term == "true" {
 		return
 	}
+	if vc.factCache == nil {
+		vc.factCache = map[string]bool{}
+	}
+	if vc.factCache[pc+"|"+term] {
+		return
+	}
+	vc.factCache[pc+"|"+term] = true
 	if pc == "true" || pc == "" {
 		vc.emit(fmt.Sprintf("(assert %s)", term))
 	} else {
@@ -421,11 +439,11 @@ func (vc *VC) typeFacts(st *State, term string, t types.Type) {
 	switch u := t.Underlying().(type) {
 	case *types.Basic:
 		if u.Info()&types.IsString != 0 {
-			vc.fact(st.pc, fmt.Sprintf("(>= (slen %s) 0)", term))
+			vc.fact(st.pc, fmt.Sprintf("(and (>= (slen %s) 0) (<= (slen %s) 9223372036854775807))", term, term))
 		}
 	case *types.Slice:
-		vc.fact(st.pc, fmt.Sprintf("(and (>= (s_len %s) 0) (<= (s_len %s) (s_cap %s)) (>= (s_off %s) 0) (>= (s_arr %s) 0) (< (s_arr %s) %s) (=> (= (s_arr %s) 0) (= (s_cap %s) 0)))",
-			term, term, term, term, term, term, vc.allocBound(st), term, term))
+		vc.fact(st.pc, fmt.Sprintf("(and (>= (s_len %s) 0) (<= (s_len %s) (s_cap %s)) (<= (s_cap %s) 9223372036854775807) (>= (s_off %s) 0) (>= (s_arr %s) 0) (< (s_arr %s) %s) (=> (= (s_arr %s) 0) (= (s_cap %s) 0)))",
+			term, term, term, term, term, term, term, vc.allocBound(st), term, term))
 	case *types.Pointer, *types.Map, *types.Chan, *types.Signature:
 		vc.fact(st.pc, fmt.Sprintf("(and (>= %s 0) (< %s %s))", term, term, vc.allocBound(st)))
 	case *types.Struct:
